@@ -753,6 +753,7 @@ func main() {
 			case 4:
 				runSecondProver(b)
 				runSecondProverMulti(b)
+				runHugeFiles(b)
 			case 5:
 				runProofs(b, "boundary", 0)
 			case 6:
